@@ -135,6 +135,7 @@ def run(repo: Repo, chk: Check) -> None:
     dim_sources(repo, chk)
     dim_operand(repo, chk)
     subview_rank(repo, chk)
+    block_arguments(repo, chk)
     helper_captures(repo, chk)
 
 
@@ -567,6 +568,31 @@ def subview_rank(repo: Repo, chk: Check) -> None:
         chk.ok("C17.subview-rank", f"{gs.key}:rank-kept", direct[0].where(), "the size lookup is guarded by a rank comparison in place")
     elif not mapped_unguarded:
         chk.ok("C17.subview-rank", f"{gs.key}:mapping", reads[0][0].where(), "the dimension index is mapped onto the kept entries under a count check")
+
+
+def block_arguments(repo: Repo, chk: Check) -> None:
+    """a memref that is a block argument is available in front of the loop only if its block encloses the loop (a function argument); the loop's own
+    arguments (induction variable, iter_args) and arguments of blocks inside the loop are defined by the loop"""
+    outer = repo.func(REUSE, "MoveMemrefDims.match_and_rewrite")
+    gate = outer.nested("memref_op_outside_loop")
+    chk.analysed(gate.key)
+    chk.rule("C17.block-args", "MoveMemrefDims accepts the dim of a block-argument memref only after relating the argument's block to the loop the dim sits in "
+             "(an iter_arg of that loop changes per iteration and is not defined in front of it)", floor=1)
+    tfl = Flow(gate, repo)
+    m = gate.param(0)
+    rets = [s for s in tfl.stmts(ast.Return) if s.reachable and s.node.value is not None and has_fact(s, ["isinstance($m, Block)"], {"m": m})]
+    if not rets:
+        raise AnalysisError(f"{gate.where}: the block-argument case of memref_op_outside_loop was not found")
+    for n_, s in enumerate(rets, 1):
+        v = tfl.cone(s.node.value, s, inline=0)
+        related = norm.contains(v, T("find_parent_for_loop($d)")) or any(norm.contains(fa.expr, T("find_parent_for_loop($d)")) for fa in s.facts if fa.kind == "atom")
+        accepts = not (isinstance(s.node.value, ast.Constant) and s.node.value.value is False)
+        if not accepts:
+            chk.ok("C17.block-args", f"{gate.key}:block#{n_}", s.where(), "block arguments are refused on this path")
+            continue
+        chk.result(related, "C17.block-args", f"{gate.key}:block#{n_}", s.where(), "the argument's block is related to the loop of the dim before it is accepted",
+                   "every block-argument memref is taken for a function input: the dim of a loop iter_arg is re-created in front of the loop from the loop's own block "
+                   "argument (use before definition, and the size of the first iteration for all)", s.fact_texts)
 
 
 def dim_operand(repo: Repo, chk: Check) -> None:
